@@ -32,11 +32,14 @@ class Ctx:
         self.samples = []
         self.extra = {}
         self.nontrivial = set()
+        self.replay_case = None  # --replay: the property's own procedure is run on this single case
 
     def quick(self):
         return self.tier == "quick"
 
     def add_cases(self, fam, srcs):
+        if self.replay_case is not None:
+            return []
         out = []
         n0 = len(self.cases)
         seen = self.extra.setdefault("_seen", set())
@@ -55,6 +58,10 @@ class Ctx:
 def base_inputs(ctx, soup_n, trunc_n=0, lf_n=0, mb_n=0, case_n=0, corpus_trunc=0, gen_n=0, cover_n=0):
     """The shared input sources of DESIGN.md section 5 (4: corpus, 5: random driver, 3: derived)."""
     rng = ctx.rng
+    if ctx.replay_case is not None:
+        ctx.cases[ctx.replay_case["id"]] = ctx.replay_case
+        ctx.families["replay"] = 1
+        return
     corp = [s for _, s in gen.corpus()]
     ctx.add_cases("corpus", corp)
     ctx.add_cases("regress", regression_inputs())
@@ -348,6 +355,8 @@ def _corrupt(prop, recs):
 
 def self_test(ctx, variant, paths, macro_sep=True):
     """Binding self-test (DESIGN.md 4.3): one recorded field is falsified; the monitor must notice."""
+    if ctx.replay_case is not None:
+        return
     recs = list(common.read_ndjson(paths[0]))
     bad = _corrupt(ctx.prop, recs)
     if bad is None:
@@ -605,6 +614,8 @@ def run_c16(ctx):
         v = gen.case_mangle(c["src"], rng)
         if v != c["src"]:
             pairs.append(("mangle", c["src"], v))
+    if ctx.replay_case is not None:
+        pairs = [("replay", ctx.replay_case.get("base", ctx.replay_case["src"]), ctx.replay_case["src"])]
     ctx.cases.clear()
     ctx.families.clear()
     both, ids = [], []
@@ -646,7 +657,7 @@ def run_c18(ctx):
         paths = write_pairs(ctx, on, ({"id": c["id"], "a": ra[c["id"]], "b": rb[c["id"]]} for c in cases))
         nsep = sum(1 for c in cases if ra[c["id"]].get("ok") and any(t["ty"] == "MacroSep" for t in ra[c["id"]]["toks"]))
         ctx.extra["cases_with_MacroSep_" + on] = nsep
-        if nsep == 0:
+        if nsep == 0 and ctx.replay_case is None:
             raise ToolError("vacuous: no input produced a MacroSep token")
         judge_pairs(ctx, on, paths)
     return finish(ctx, "model_checking",
@@ -771,6 +782,9 @@ def run_c15(ctx):
             if a and a not in seen:
                 seen.add(a)
                 cands.append(a)
+    rpl = ctx.replay_case
+    if rpl is not None:
+        cands = [rpl.get("A", rpl["src"])]
     ctx.cases.clear()
     ctx.families.clear()
     ctx.extra.pop("_seen", None)
@@ -779,7 +793,7 @@ def run_c15(ctx):
     closed = [c for c in acases if closed_prefix(recsA[c["id"]])]
     ctx.extra["candidate_prefixes"] = len(acases)
     ctx.extra["closed_prefixes"] = len(closed)
-    if len(closed) < 50:
+    if len(closed) < 50 and ctx.replay_case is None:
         raise ToolError("vacuous: only %d closed prefixes found" % len(closed))
     frag = gen.OPEN_FRAGS + gen.MACRO_FRAGS
     bpool = [f for f in frag] + [x + y for x in rng.sample(frag, 40) for y in rng.sample(frag, 10)] + \
@@ -796,7 +810,7 @@ def run_c15(ctx):
     tuples = []
     rng.shuffle(closed)
     for a in closed:
-        for b in rng.sample(bpool, per_a) + rng.sample(sens, 2 if q else 8):
+        for b in ([rpl.get("B", "")] if rpl is not None else rng.sample(bpool, per_a) + rng.sample(sens, 2 if q else 8)):
             tuples.append((a, b))
         if len(tuples) >= maxpairs:
             break
@@ -928,6 +942,8 @@ def cover_inputs(ctx, n_per_set=None):
 def design_mc(ctx):
     """Model checks the design invariants on the operational model (regime R2) and records the counts.
     Bounds: (fragment set, max stack, max open calls, window in fragments)."""
+    if ctx.replay_case is not None:
+        return
     if ctx.quick():
         sets = [("open", 8, 9, 3), ("str", 30, 1, 2)]
     else:
@@ -956,6 +972,8 @@ def opencode_mc(ctx):
     """C11 at the design level: the operational model (SasLexer.tla) against the declarative reference lexer
     (OpenCode.tla) on every macro-free input of at most N fragments of the open-code set (regime R1, full history)
     and, in the thorough tier, on the R2 representatives as well."""
+    if ctx.replay_case is not None:
+        return
     runs = []
     n = 4
     st, _ = mc_run(ctx.dir, "oc-r1", "open", 40, 9, False, calls=9, r1_frags=n, invs="OpenCodeEq NoFault", progress=False)
@@ -975,6 +993,8 @@ def views_proof(ctx):
     """C05, unbounded: spec/BufferProof.tla (theorem ViewsAgreeThm: bulk view = accessors for every buffer whose token
     starts are non-decreasing and whose line indices designate lines starting at or before the token) is checked by
     tlapm.  The result is recorded; it never changes the exit code (the verdict is about the implementation)."""
+    if ctx.replay_case is not None:
+        return
     import subprocess
     d = os.path.join(ctx.dir, "tlaps")
     shutil.rmtree(d, ignore_errors=True)
@@ -1002,6 +1022,8 @@ def views_proof(ctx):
 def buffer_mc(ctx):
     """The hypotheses of the proved theorems (BufOK2) as the invariant BufferOK of the operational model: all inputs of
     at most N fragments (R1), two fragment sets in the quick tier, all five in the thorough tier."""
+    if ctx.replay_case is not None:
+        return
     runs = []
     for fs, n in ([("open", 3), ("macrostat", 2)] if ctx.quick() else [(f, 3) for f in FRAGSETS]):
         st, _ = mc_run(ctx.dir, "buf-%s" % fs, fs, 40, 9, False, calls=9, r1_frags=n, invs="BufferOK NoFault", progress=False)
@@ -1015,6 +1037,8 @@ def buffer_mc(ctx):
 def views_mc(ctx):
     """C05 at the design level: spec/MC_Views.tla enumerates every buffer satisfying the buffer invariant over small
     texts and checks bulk view = accessors = text (formulas of buffer.rs in spec/Buffer.tla)."""
+    if ctx.replay_case is not None:
+        return
     n, k = (7, 5) if ctx.quick() else (9, 6)
     cfg = "SPECIFICATION Spec\nINVARIANT ViewsAgree ViewsMatchText\nCONSTANTS\n  N = %d\n  K = %d\nCHECK_DEADLOCK FALSE\n" % (n, k)
     rc, out, wall = common.tlc("MC_Views", cfg, ctx.dir, "mc-views", workers=8, timeout=1800, heap="8g")
@@ -1031,6 +1055,8 @@ def views_mc(ctx):
 
 def seppair_mc(ctx):
     """C18 at the design level: spec/MC_SepPair.tla runs the model with and without the feature in lockstep."""
+    if ctx.replay_case is not None:
+        return
     sets = [("macrostat", 7, 1, 2)] if ctx.quick() else [("macrostat", 9, 1, 2), ("call", 30, 1, 2), ("str", 30, 1, 2)]
     runs = []
     for fs, stack, calls, window in sets:
@@ -1052,6 +1078,8 @@ def seppair_mc(ctx):
 
 def compose_mc(ctx):
     """C15 at the design level: spec/MC_Compose.tla starts a fresh lexer at every closed boundary and runs both in lockstep."""
+    if ctx.replay_case is not None:
+        return
     sets = [("open", 8, 9, 3), ("macrostat", 6, 1, 2)] if ctx.quick() else \
         [("open", 10, 9, 3), ("macrostat", 7, 1, 2), ("str", 12, 1, 2), ("call", 12, 1, 2)]
     runs = []
@@ -1071,6 +1099,8 @@ def compose_mc(ctx):
 
 def twin_mc(ctx, twin):
     """C16 / C17 at the design level: spec/MC_Twin.tla runs a twin lexer on the upper-cased / BOM-prefixed text."""
+    if ctx.replay_case is not None:
+        return
     sets = [("open", 8, 9, 3), ("str", 30, 1, 2)] if ctx.quick() else \
         [("open", 10, 9, 3), ("macrostat", 9, 1, 2), ("str", 30, 1, 2), ("call", 30, 1, 2), ("eval", 30, 1, 2)]
     runs = []
@@ -1164,7 +1194,7 @@ def run_gen_prop(ctx):
     if fault:
         import collections
         ctx.extra["fault_kinds"] = dict(collections.Counter(c["fault"]["kind"] for c in ctx.cases.values()))
-    if len(ctx.cases) < 100:
+    if len(ctx.cases) < 100 and ctx.replay_case is None:
         raise ToolError("vacuous: generator produced only %d distinct programs" % len(ctx.cases))
     pick_samples(ctx)
     cases = list(ctx.cases.values())
@@ -1191,6 +1221,8 @@ def model_leg(ctx, paths, mprop):
     record (spec/TraceConf.tla ModelRec), plus agreement of the final results of model and implementation (MSAME).
     A failure here is a statement about the model (or drift), never a verdict about the code: it is recorded in
     the evidence and printed, and does not change the exit code."""
+    if ctx.replay_case is not None:
+        return
     out = {}
     for prop in (mprop, "MSAME"):
         mon = common.monitor(prop, paths, ctx.dir, workers_each=2, parallel=8)
@@ -1211,6 +1243,8 @@ def binding_leg(ctx, paths):
     """What carries the design-level results over to the code: step-by-step conformance (spec/TraceConf.tla CONF_drift)
     of the very executions this check judged (debug-assertion build, events recorded).  Drift is recorded and printed,
     never a verdict."""
+    if ctx.replay_case is not None:
+        return
     mon = common.monitor("CONF", paths, ctx.dir, workers_each=2, parallel=8)
     ctx.states += mon["states"]
     ctx.transitions += mon["transitions"]
@@ -1486,7 +1520,8 @@ RUNNERS = {"C20": run_c20, "CONF": run_conf, "C12": run_gen_prop, "C13": run_gen
 def run(prop, tier, seed, replay=None, keep=False):
     ctx = Ctx(prop, tier, seed, keep=keep)
     if replay:
-        return run_replay(ctx, replay)
+        with open(replay, encoding="utf-8") as f:
+            ctx.replay_case = json.load(f)["case"]
     if prop in GENERIC:
         return run_generic(ctx)
     if prop in RUNNERS:
